@@ -1114,6 +1114,12 @@ func c16(c *core.Ctx) {
 	c.Clause("C16.10", "a price is never a wrapped product: in the pricing functions of the VM (jump-table gas functions, memoryGasCost, callGas, RequiredGas of the native contracts) a uint64 multiplication has a constant operand or operands bounded by a dominating comparison; everything else goes through math.SafeMul or big.Int (a product that wraps to 0 makes an arbitrarily large native-contract run free)")
 	c.Run("no-raw-gas-product", func() { c16NoRawGasProduct(c) })
 
+	c.Clause("C16.11", "no byte code crashes the interpreter through an unchecked offset: Memory.Get and Memory.GetPtr slice the store only on the size ≠ 0 edge of a test of their size parameter (memory is reserved, and the offset thereby checked, only for operands that have a length)")
+	c.Run("memory-zero-size-first", func() { c16MemoryZeroSizeFirst(c) })
+
+	c.Clause("C16.12", "a read-only call changes nothing that a later call could see: every TxProcessor.ReadContract request executes on a manager made by NewReadOnlyManager for that request")
+	c.Run("read-calls-start-fresh", func() { c16ReadCallsStartFresh(c) })
+
 	c.Clause("C16.9", "a failed call leaves the state as it was only if undo is exact: the change-journal clauses of C07 (undo covers do, undo/redo write through the journalling sibling's setters, old values recorded before the write) are evaluated here as well")
 	c07(c)
 
